@@ -138,6 +138,26 @@ check("C16", "fault_enumeration",
       "TLA+ fault model enumerated by TLC, every case executed against the real decoders, outcomes judged by TLC",
       "DESIGN.md §5 C16")
 
+check("C20", "model_checking",
+      "Estimator.tla is the abstract per-pixel Monte-Carlo estimator (samples taken, sum, stopped; Finish requires pixel * "
+      "taken = sum, stopping only after a criterion said so and not before MinSamples); EstimatorImpl.tla transcribes "
+      "rayRenderer.estimateColor and TLC checks that it refines Estimator for every NumSamples <= 5 (7), MinSamples, "
+      "sample sequence and answer pattern. Every setting x answer pattern is replayed through the real "
+      "RecursiveRayTracer (scripted emissive object, scripted Convergence callback, built-in MaxStddev criterion, with and "
+      "without recursion depth) and EstimatorTrace validates the cast / conv / done trace of every pixel. PixelPool.tla "
+      "(mapCoordinates) is model-checked over all interleavings (exactly once, termination) and the real renderers run "
+      "under CPU sets of 1, 3 and all cores with every pixel cast exactly NumSamples times and written with its own value. "
+      "SceneJudge.tla is an exact rational oracle: nearest hit (parameter, material, unit outward normal) of "
+      "Joined/BVH/Filtered/nested objects over boxes under chains of Translate/Scale/Rotate(quarter)/MatrixMultiply; which "
+      "points of a matte floor+occluder scene a point light reaches, with the closed-form cos(theta) value where the "
+      "distance is an integer; Caster directions and Uncaster(Caster) = id for axis-aligned 90-degree cameras on square and "
+      "non-square frames.",
+      "Trusted: TLC; projection of floats to scaled integers with exactness flags (840*pixel, 12*t, 10^6*pixel, w*h*dir). "
+      "Not covered: BidirPathTracer's own sampling (it shares the estimator and the pixel pool), general camera "
+      "orientations / fields of view, auto-framing helpers, antialias jitter, materials other than Lambert.",
+      "TLA+ refinement model checking (TLC) + TLC trace validation of renderer traces + TLC exact-geometry judging",
+      "DESIGN.md §5 C20")
+
 _pending = "check not built yet in this session (planned, see DESIGN.md §10)"
 for pid in ["C01","C02","C03","C04","C05","C06","C07","C08","C10","C11","C12","C13","C14","C15","C16","C17","C18","C20"]:
     if pid not in CHECKS:
